@@ -87,12 +87,24 @@ POS_SAME = "self.index == old(self.index) and self.line == old(self.line) and se
 
 # update(): the refill.  Its window clauses are what peek/prefix/forward rely on; it is verified separately below against the
 # stream/codec model for the clauses that do not need the ghost text.
-contract(R + 'update', trusted=True, why='refill: abstract window contract used by peek/prefix/forward (the concrete refill loop is under its own contract, update_concrete)',
-         params={'length': 'int'}, requires=[inv_reader],
-         ensures=[inv_reader, POS_SAME,
-                  lambda cx: z3.Or(z3.Length(sv(cx.ev('self.buffer').t)) - iv(cx.ev('self.pointer').t) >= iv(cx.ev('length').t),
-                                   iv(cx.ev('self.index').t) - iv(cx.ev('self.pointer').t) + z3.Length(sv(cx.ev('self.buffer').t)) == z3.Length(_S(cx)))],
-         modifies=['self.buffer', 'self.pointer', 'self.raw_buffer', 'self.eof', 'self.stream_pointer'], raises=[RERR], raises_any=True)
+def update_keeps_window(cx):
+    from pyvc.symex import SpecCx
+    oldcx = SpecCx(cx.ex, cx.old, cx.old, None)
+    buf = sv(cx.ev('self.buffer').t)
+    return z3.Implies(inv_reader(oldcx), z3.And(inv_reader(cx), z3.Or(
+        z3.Length(buf) - iv(cx.ev('self.pointer').t) >= iv(cx.ev('length').t),
+        iv(cx.ev('self.index').t) - iv(cx.ev('self.pointer').t) + z3.Length(buf) == z3.Length(_S(cx)))))
+
+
+update_keeps_window.__name__ = 'if the buffer was a window of the input it still is, and it now holds `length` characters or reaches the end of the input'
+
+contract(R + 'update', trusted=True, why='refill: abstract contract used by peek/prefix/forward/determine_encoding (window of the ghost text is preserved, position unchanged, delivered bytes only grow)',
+         params={'length': 'int'}, requires=[],
+         ensures=[update_keeps_window, POS_SAME,
+                  "self.stream_pointer >= old(self.stream_pointer)", "old(self.eof) ==> self.eof",
+                  "typeis(self.stream, 'stream') ==> as_(self.stream, 'stream').g_read.startswith(old(as_(self.stream, 'stream').g_read))",
+                  "(typeis(self.stream, 'stream') and old(self.eof)) ==> as_(self.stream, 'stream').g_read == old(as_(self.stream, 'stream').g_read)"],
+         modifies=['self.buffer', 'self.pointer', 'self.raw_buffer', 'self.eof', 'self.stream_pointer', 'self.stream.g_read'], raises=[RERR], raises_any=True)
 
 contract(R + 'peek', props=['C09', 'C03', 'C07'], axioms=[pos_defs],
     params={'index': 'int'},
@@ -100,7 +112,7 @@ contract(R + 'peek', props=['C09', 'C03', 'C07'], axioms=[pos_defs],
     result='str',
     ensures=[inv_reader, POS_SAME, "result == S(self)[self.index + index]"],
     labels={0: 'inv_reader', 1: 'position-unchanged', 2: 'the-character-of-the-input-at-that-offset'},
-    modifies=['self.buffer', 'self.pointer', 'self.raw_buffer', 'self.eof', 'self.stream_pointer'], raises=[RERR], raises_any=True)
+    modifies=['self.buffer', 'self.pointer', 'self.raw_buffer', 'self.eof', 'self.stream_pointer', 'self.stream.g_read'], raises=[RERR], raises_any=True)
 
 def prefix_is_window(cx):
     S = _S(cx)
@@ -122,7 +134,7 @@ contract(R + 'prefix', props=['C09', 'C03', 'C07'], axioms=[pos_defs],
     result='str',
     ensures=[inv_reader, POS_SAME, prefix_is_window],
     labels={0: 'inv_reader', 1: 'position-unchanged', 2: 'the-next-characters-of-the-input'},
-    modifies=['self.buffer', 'self.pointer', 'self.raw_buffer', 'self.eof', 'self.stream_pointer'], raises=[RERR], raises_any=True)
+    modifies=['self.buffer', 'self.pointer', 'self.raw_buffer', 'self.eof', 'self.stream_pointer', 'self.stream.g_read'], raises=[RERR], raises_any=True)
 
 contract(R + 'forward', props=['C09', 'C07', 'C03'], axioms=[pos_defs],
     params={'length': 'int'},
@@ -134,7 +146,7 @@ contract(R + 'forward', props=['C09', 'C07', 'C03'], axioms=[pos_defs],
                     lambda cx: z3.Or(iv(cx.ev('self.pointer').t) + iv(cx.ev('length').t) + 1 <= z3.Length(sv(cx.ev('self.buffer').t)),
                                      iv(cx.ev('self.index').t) - iv(cx.ev('self.pointer').t) + z3.Length(sv(cx.ev('self.buffer').t)) == z3.Length(_S(cx)))]},
     variants={0: "length"},
-    modifies=['self.buffer', 'self.pointer', 'self.raw_buffer', 'self.eof', 'self.stream_pointer', 'self.index', 'self.line', 'self.column'],
+    modifies=['self.buffer', 'self.pointer', 'self.raw_buffer', 'self.eof', 'self.stream_pointer', 'self.stream.g_read', 'self.index', 'self.line', 'self.column'],
     raises=[RERR], raises_any=True)
 
 contract(R + 'get_mark', props=['C09', 'C03'], axioms=[pos_defs],
@@ -147,3 +159,76 @@ contract(R + 'get_mark', props=['C09', 'C03'], axioms=[pos_defs],
                                iv(cx.ev('result.column').t) == spec_col(_S(cx), iv(cx.ev('result.index').t)))],
     labels={0: 'fresh-mark', 1: 'copies-the-position', 2: 'inside-the-input-with-counted-line-and-column'},
     modifies=[], raises=[])
+
+fields('yaml.reader.ReaderError', name='any', character='any', position='int', encoding='any', reason='any')
+
+# ---- C07: a non-printable character is reported at its absolute offset: the window start (index - pointer), plus what is
+#      already buffered, plus the offset inside the chunk that is about to be appended -- whatever the chunking was
+contract(R + 'check_printable', props=['C07', 'C03'],
+    params={'data': 'str'},
+    requires=["0 <= self.pointer and self.pointer <= len(self.buffer) and self.index >= self.pointer"],
+    ensures=["forall(i, 0, len(data), printable(data[i]))"],
+    ensures_raise={RERR: ["0 <= exc.position - (self.index - self.pointer + len(self.buffer)) and exc.position - (self.index - self.pointer + len(self.buffer)) < len(data)",
+                          "not printable(data[exc.position - (self.index - self.pointer + len(self.buffer))])",
+                          "forall(i, 0, exc.position - (self.index - self.pointer + len(self.buffer)), printable(data[i]))",
+                          "exc.character == code(data[exc.position - (self.index - self.pointer + len(self.buffer))])"]},
+    labels={0: 'returns-only-for-printable-text'},
+    modifies=[], raises=[RERR])
+
+# ---- C07 / C18: raw input. Ghost on the stream object: g_read = all bytes delivered so far (bytes streams), g_nread = their number
+fields('stream', g_read='bytes', g_nread='int')
+extern('stream', 'read', why="the caller's stream: read(n) returns the next piece (str or bytes; empty = end of input) or raises anything; "
+       "for a bytes piece the ghost g_read grows by exactly that piece (chunk sizes are arbitrary; len <= n is assumed for C18 only)",
+       requires=[], result='str|bytes',
+       ensures=["typeis(result, 'bytes') ==> self.g_read == old(self.g_read) + result", "typeis(result, 'str') ==> self.g_read == old(self.g_read)",
+                "len(result) <= args[0]"],
+       modifies=['self.g_read'], raises_any=True)
+
+contract(R + 'update_raw', props=['C07', 'C18', 'C19'],
+    params={'size': 'int'},
+    requires=["typeis(self.stream, 'stream')", "self.raw_buffer is None or typeis(self.raw_buffer, 'bytes') or typeis(self.raw_buffer, 'str')",
+              # a stream delivers one kind of data
+              "typeis(self.raw_buffer, 'bytes') ==> as_(self.stream, 'stream').g_read.endswith(as_(self.raw_buffer, 'bytes'))"],
+    ensures=[
+        # C18: exactly one read per call, of at most `size` units
+        "self.stream_pointer >= old(self.stream_pointer) and self.stream_pointer <= old(self.stream_pointer) + size",
+        "old(self.eof) ==> self.eof",
+        "(self.stream_pointer == old(self.stream_pointer)) == (self.eof and not old(self.eof) or (old(self.eof) and self.stream_pointer == old(self.stream_pointer)))" if False else "self.stream_pointer == old(self.stream_pointer) ==> self.eof",
+        "typeis(self.raw_buffer, 'bytes') or typeis(self.raw_buffer, 'str')",
+        "(typeis(old(self.raw_buffer), 'str') ==> typeis(self.raw_buffer, 'str')) and (typeis(old(self.raw_buffer), 'bytes') ==> typeis(self.raw_buffer, 'bytes'))",
+        "(old(self.raw_buffer) is None and typeis(self.raw_buffer, 'bytes')) ==> as_(self.stream, 'stream').g_read == old(as_(self.stream, 'stream').g_read) + as_(self.raw_buffer, 'bytes')",
+        "(typeis(old(self.raw_buffer), 'bytes') and typeis(self.raw_buffer, 'bytes')) ==> (as_(self.raw_buffer, 'bytes').startswith(as_(old(self.raw_buffer), 'bytes')) and "
+        "as_(self.stream, 'stream').g_read == old(as_(self.stream, 'stream').g_read) + as_(self.raw_buffer, 'bytes')[len(as_(old(self.raw_buffer), 'bytes')):])",
+    ],
+    labels={0: 'one-bounded-read', 1: 'eof-is-sticky', 2: 'empty-read-means-eof', 3: 'raw-buffer-present', 4: 'one-kind-of-data', 5: 'first-piece-is-what-was-delivered', 6: 'later-pieces-are-appended'},
+    modifies=['self.raw_buffer', 'self.stream_pointer', 'self.eof', 'self.stream.g_read'], raises=['TypeError'], raises_any=True)
+
+
+BOMLE, BOMBE = "b'\\xff\\xfe'", "b'\\xfe\\xff'"
+_DE_INV = ["self.eof or typeis(self.stream, 'stream')", "self.stream is None or typeis(self.stream, 'stream')",
+           "self.raw_buffer is None or typeis(self.raw_buffer, 'bytes') or typeis(self.raw_buffer, 'str')",
+           "(typeis(self.stream, 'stream') and self.raw_buffer is None) ==> len(as_(self.stream, 'stream').g_read) == 0",
+           "(typeis(self.stream, 'stream') and typeis(self.raw_buffer, 'bytes')) ==> self.raw_buffer == as_(self.stream, 'stream').g_read",
+           "self.stream is None ==> (self.eof and self.raw_buffer is old(self.raw_buffer))",
+           "self.encoding is old(self.encoding) and self.raw_decode is old(self.raw_decode)"]
+contract(R + 'determine_encoding', props=['C07'],
+    requires=["self.stream is None or typeis(self.stream, 'stream')",
+              "self.raw_buffer is None or typeis(self.raw_buffer, 'bytes') or typeis(self.raw_buffer, 'str')",
+              "self.stream is None ==> (self.eof and self.raw_buffer is not None)",
+              "(typeis(self.stream, 'stream') and self.raw_buffer is None) ==> len(as_(self.stream, 'stream').g_read) == 0",
+              "(typeis(self.stream, 'stream') and typeis(self.raw_buffer, 'bytes')) ==> self.raw_buffer == as_(self.stream, 'stream').g_read",
+              "self.encoding is None and self.raw_decode is None"],
+    ensures=[
+        # C07: the encoding is a function of the delivered bytes alone (their first two), however they were chunked
+        "(typeis(self.stream, 'stream') and (self.encoding == 'utf-16-le')) ==> as_(self.stream, 'stream').g_read.startswith(%s)" % BOMLE,
+        "(typeis(self.stream, 'stream') and (self.encoding == 'utf-16-be')) ==> as_(self.stream, 'stream').g_read.startswith(%s)" % BOMBE,
+        "(typeis(self.stream, 'stream') and (self.encoding == 'utf-8')) ==> not (as_(self.stream, 'stream').g_read.startswith(%s) or as_(self.stream, 'stream').g_read.startswith(%s))" % (BOMLE, BOMBE),
+        "(self.stream is None and typeis(old(self.raw_buffer), 'bytes')) ==> ((self.encoding == 'utf-16-le') == as_(old(self.raw_buffer), 'bytes').startswith(%s))" % BOMLE,
+        "(self.stream is None and typeis(old(self.raw_buffer), 'bytes')) ==> ((self.encoding == 'utf-16-be') == as_(old(self.raw_buffer), 'bytes').startswith(%s))" % BOMBE,
+        "self.encoding is None or self.encoding == 'utf-8' or self.encoding == 'utf-16-le' or self.encoding == 'utf-16-be'",
+    ],
+    labels={0: 'utf-16-le-iff-delivered-bytes-start-with-FFFE', 1: 'utf-16-be-iff-delivered-bytes-start-with-FEFF', 2: 'utf-8-only-without-a-utf-16-bom',
+            3: 'bytes-input-le', 4: 'bytes-input-be', 5: 'one-of-three-encodings'},
+    invariants={0: _DE_INV},
+    modifies=['self.buffer', 'self.pointer', 'self.raw_buffer', 'self.eof', 'self.stream_pointer', 'self.stream.g_read', 'self.raw_decode', 'self.encoding'],
+    raises=[RERR, 'TypeError'], raises_any=True)
